@@ -13,7 +13,7 @@ RULE = ("Hypothesis (program, drive, subscribe) triples: C02-style handler progr
         "requests) whose handlers make observations with literal values to a SimCounter, SimTally, SimWeightedTally "
         "and SimPersistent created in construct_model of a plain model or of a model class that defines __len__ (default event types, and a custom EventType via listen_to for "
         "the tally); replications with warm-up before / exactly on / between / after event times and beyond the end; "
-        "drive in {start, steps, stop()-pause, bounded runs}, optionally as a later replication on the same simulator and model, optionally with a second model (own simulator, same statistic keys) initialised/run in between; optionally a subscriber on every statistic for every "
+        "drive in {start, steps, stop()-pause, bounded runs}, optionally as a later replication on the same simulator and model, optionally with a second model (own simulator, same statistic keys) initialised/run in between, optionally with self-removing one-shot listeners of WARMUP / END_REPLICATION subscribed before the statistics; optionally a subscriber on every statistic for every "
         "StatEvents type. Oracle: ordinary Counter/Tally/WeightedTally/TimestampWeightedTally fed exactly the "
         "observations that the reference interpreter executes after the warm-up reset (persistent closed with "
         "end_observations(end)): every getter bit-identical; independent exact (Fraction) time-integral for the "
@@ -91,6 +91,7 @@ def strategy(tier):
         "reinit": st.sampled_from([None, None, None, "ended", "init", "bounded"]),
         "other_model": st.sampled_from([None, None, "ended", "init"]),
         "container_model": st.sampled_from([False, False, True]),
+        "one_shot_listeners": st.sampled_from([False, False, True]),
     })
 
 
@@ -156,6 +157,21 @@ def _install(model, subscribe, published):
     def construct(m):
         sim = m.simulator
         m.prod = {k: EventProducer() for k in "ctwp"}
+        if getattr(model, "one_shot_listeners", False):
+            # other parts of the model listen to the simulator too: one-shot listeners of the warm-up and of the
+            # replication end, subscribed BEFORE the statistics, that unsubscribe themselves when notified
+            from pydsol.core.interfaces import ReplicationInterface
+
+            class OneShot(EventListener):
+                def __init__(self, et):
+                    self.et, self.seen = et, 0
+
+                def notify(self, event):
+                    self.seen += 1
+                    sim.remove_listener(self.et, self)
+            m.one_shots = [OneShot(ReplicationInterface.WARMUP_EVENT), OneShot(ReplicationInterface.END_REPLICATION_EVENT)]
+            for o in m.one_shots:
+                sim.add_listener(o.et, o)
         m.stats = {
             "c": SimCounter("cnt", "counter", sim),
             "t": SimTally("tal", "tally", sim),
@@ -245,6 +261,9 @@ def run_case(case):
         prog = dict(prog, container_model=True)
         out.label("model-with-__len__")
     h = Harness(prog)
+    if case.get("one_shot_listeners"):
+        h.model.one_shot_listeners = True
+        out.label("one-shot-listeners-before-statistics")
     _install(h.model, case["subscribe"], published)
     try:
         h.initialize()
